@@ -148,7 +148,14 @@ func (p *SNIProxy) ServeTCP(in net.Conn) error {
 	go cp(in, out, t.RxCounter)
 	// copy from the buffered reader, not from the raw connection: bytes which
 	// arrived together with the ClientHello are already in its buffer
-	go cp(out, tlsReader, t.TxCounter)
+	go func() {
+		err := copyBuffer(out, tlsReader, t.TxCounter)
+		if err == nil {
+			// the client is done sending but may still wait for the reply
+			halfClose(out, in)
+		}
+		errc <- err
+	}()
 	err = <-errc
 	if err != nil && err != io.EOF {
 		log.Print("[WARN]: tcp+sni:  ", err)
